@@ -1888,9 +1888,57 @@ def _origins_through_call(e: ast.Call, lc: Any, params: set[str], seen: frozense
     from ..astutil import Locals
 
     ix, f, stack = at
-    h = _callee(ix, f, e)
-    if h is None or h.qual in stack or len(stack) >= 3:
+    h0 = _callee(ix, f, e)
+    if h0 is None or len(stack) >= 3:
         return set()
+    # a method called through self / cls runs whichever override the class of the object defines: the result has the origins of
+    # what any of them hands back - provided each of them is followed (hands back something reached from its own parameters, or
+    # nothing at all); one that hands back a value of unknown origin leaves the whole call without origin
+    hs = _overrides(ix, f, e, h0)
+    if any(h.qual in stack for h in hs):
+        return set()
+    out: set[tuple[str, bool]] = set()
+    for h in hs:
+        o = _origins_of_result(e, h, lc, params, seen, depth, at, elements)
+        if o is None or (not o and len(hs) > 1 and not _hands_back_nothing(h, elements)):
+            return set()
+        out |= o
+    return out
+
+
+def _overrides(ix: Any, f: FuncInfo, e: ast.Call, h0: FuncInfo) -> list[FuncInfo]:
+    """the methods a call `self.m(...)` / `cls.m(...)` made in f can run: the one the class of f sees, and every redefinition of it
+    in a subclass of that class"""
+    hs = [h0]
+    if isinstance(e.func, ast.Attribute) and isinstance(e.func.value, ast.Name) and e.func.value.id in ("self", "cls") and f.cls is not None:
+        for k in ix.subclasses(f.cls):
+            h = k.methods.get(e.func.attr)
+            if h is not None and h not in hs:
+                hs.append(h)
+    return hs
+
+
+def _hands_back_nothing(h: FuncInfo, elements: bool) -> bool:
+    """every value the function returns is an empty container written out (asked for the elements of the result), resp. None"""
+    own = _own_nodes(h.node)
+    if any(isinstance(n, (ast.Yield, ast.YieldFrom)) for n in own):
+        return False
+    for n in own:
+        if isinstance(n, ast.Return) and n.value is not None:
+            v = n.value
+            empty = (isinstance(v, (ast.Tuple, ast.List, ast.Set)) and not v.elts) or (isinstance(v, ast.Dict) and not v.keys) \
+                or (isinstance(v, ast.Call) and not v.args and not v.keywords and call_name(v) in ("tuple", "list", "set", "frozenset", "dict"))
+            if not (empty if elements else (isinstance(v, ast.Constant) and v.value is None)):
+                return False
+    return True
+
+
+def _origins_of_result(e: ast.Call, h: FuncInfo, lc: Any, params: set[str], seen: frozenset[str], depth: int,
+                       at: tuple[Any, FuncInfo, tuple[str, ...]], elements: bool) -> set[tuple[str, bool]] | None:
+    """the origins of what the call e, run by h, hands back (of its elements), in terms of the caller's parameters"""
+    from ..astutil import Locals
+
+    ix, f, stack = at
     own = _own_nodes(h.node)
     hlc = Locals(h.node)
     hparams = {p.arg for p in h.params}
